@@ -72,7 +72,6 @@ func c11Line(secret string, n int) string {
 	return fmt.Sprintf(`{"t":{"$date":"2025-01-01T00:00:00.000Z"},"s":"I","c":"COMMAND","id":51803,"ctx":"conn%d","msg":"Slow query","attr":{"type":"command","ns":"db.c","command":{"find":"c","filter":{"name":"%s","k":%d},"$db":"db"},"durationMillis":%d}}`, n, secret, n, 100+n)
 }
 
-
 func C11() int {
 	s, c, _, ok := setup("C11", "fault_enumeration")
 	if !ok {
